@@ -36,7 +36,8 @@ def value_of(kind):
         "duration": timedelta(hours=1, minutes=30),
         "period-utc": (u(2024, 1, 5, 10), timedelta(hours=1)), "period-zoned": (z(2024, 1, 5, 10), z(2024, 1, 5, 11)),
         "period-list-utc": [(u(2024, 1, 5, 10), timedelta(hours=1)), (u(2024, 1, 6, 10), u(2024, 1, 6, 11))],
-        "recur": {"freq": "weekly", "byday": ["MO", "-1FR"], "count": 3},
+        "recur": {"freq": "weekly", "byday": ["MO", "-1FR"], "count": 3, "interval": 2, "bysecond": [0, 59], "byminute": [30], "byhour": [9, 17],
+                  "byweekno": [20, -1], "bymonthday": [1, -1], "byyearday": [100, -1], "bymonth": [3, 11], "bysetpos": [1, -1], "wkst": "SU"},
         "utc-offset": timedelta(hours=-4, minutes=-30), "uri": "http://example.com/a?b=c#d",
         "cal-address": "mailto:jane_doe@example.com", "binary": vBinary("hello binary"),
     }[kind]
@@ -126,7 +127,10 @@ def equal_value(kind, supplied, got):
                 vals += [x.dt for x in g.dts] if isinstance(g, vDDDLists) else [g.dt]
             return len(vals) == len(supplied) and all(same_dt(a, b) for a, b in zip(supplied, vals))
         if kind == "recur":
-            return dict(got) == {"FREQ": ["WEEKLY"], "BYDAY": ["MO", "-1FR"], "COUNT": [3]}
+            want = {"FREQ": ["WEEKLY"], "BYDAY": ["MO", "-1FR"], "COUNT": [3], "INTERVAL": [2], "BYSECOND": [0, 59], "BYMINUTE": [30], "BYHOUR": [9, 17],
+                    "BYWEEKNO": [20, -1], "BYMONTHDAY": [1, -1], "BYYEARDAY": [100, -1], "BYMONTH": [3, 11], "BYSETPOS": [1, -1], "WKST": ["SU"]}
+            # the decoded parts are the supplied values AND of the supplied kinds (an integer part does not come back as text)
+            return dict(got) == want and all(isinstance(x, int) for k_, v_ in got.items() if k_ not in ("FREQ", "BYDAY", "WKST") for x in v_)
         if kind == "utc-offset":
             return got.td == supplied
         if kind in ("uri", "cal-address"):
